@@ -445,6 +445,12 @@ def H4_debits(ctx):
                   and bool_fact(a)[0][1].endswith('is_root_value_transfer')]
             if len(tr) >= 2:
                 twice += 1
+            # the excluded transfer is skipped altogether: nothing is recorded for it before the scan moves on
+            for i0 in tr:
+                nxt = [j for j, a in enumerate(p.events) if j > i0 and a.kind == 'atom' and a.d['term'][0] == 'discr' and a.d['term'][1][0] == 'call' and a.d['term'][1][1].endswith('::next')]
+                upto = nxt[0] if nxt else len(p.events)
+                if [e for e in p.events[i0:upto] if e.kind == 'call' and norm_callee(e.d['callee']).endswith('::or_insert')]:
+                    twice += 1
             if len(tr) == 1 and [a for a in p.events[tr[0]:] if a.kind == 'atom' and a.d['term'][0] == 'discr' and a.d['term'][1][0] == 'call' and a.d['term'][1][1].endswith('::next') and a.d['outcome'] == 'Some']:
                 once_then_more += 1
     ctx.ob('H4', f, 'root-transfer-excluded-at-most-once', ps3 is not None and twice == 0 and once_then_more >= 1,
@@ -546,7 +552,8 @@ def H4b_journal_tables(ctx):
                 elif a.d['term'][0] == 'discr':
                     conds.append(('discr', a.d['outcome']))
         rv = show(ret)
-        rk = rv if rv in ('true', 'false') else ('eq(to,target)' if 'to' in je_fields(ret) else rv[:30])
+        is_eq = (ret[0] == 'bin' and ret[1] == 'Eq') or (ret[0] == 'call' and ret[1].endswith('::eq'))
+        rk = rv if rv in ('true', 'false') else ('eq(to,target)' if 'to' in je_fields(ret) and is_eq else rv[:30])
         rows.add((tuple(conds), rk))
     need = {
         ((('discr', '!BalanceTransfer'),), 'false'),
@@ -630,6 +637,11 @@ def H6_reserve_small_tables(ctx):
                 n_zero += 1
                 if 'ZERO' not in ret[1]:
                     bad.append(f'the "nothing later" answer is {ret[1][-12:]}')
+                if owner == 'ReservePlanner':
+                    unknown = any(of and of[1] == 'None' and has_call(of[0], '::get') for of in (option_fact(a) for a in p.events))
+                    none_later = holds_rel(p, len(p.events), lambda op, l, r: op == 'Eq' and has_call(l, '::partition_point') and has_call(r, '::len'))
+                    if not unknown and not none_later:
+                        bad.append('zero is answered although the sender has later transactions in the block')
             if owner == 'AccountReserveSchedule' and ret[0] != 'const':
                 checked = has_call(ret, '::get') and has_call(ret, '::partition_point')
                 if not checked and not holds_rel(p, len(p.events), lambda op, l, r: op == 'Lt' and has_call(l, '::partition_point') and has_call(r, '::len')):
